@@ -110,6 +110,44 @@ func stdReads(ids []uint64, absent uint64) []ReadSpec {
 	return rs
 }
 
+// reads of named versions, the same in every phase
+func refReads(ids []uint64, withBranch bool) []RefRead {
+	refs := []VRef{{N: 0}, {N: -2}, {N: -1}}
+	if withBranch {
+		refs = append(refs, VRef{B: true, N: -1}, VRef{B: true, N: 0})
+	}
+	id0 := uint64(10)
+	if len(ids) > 0 {
+		id0 = ids[0]
+	}
+	reads := []ReadSpec{
+		{Kind: "keys"}, {Kind: "all", Show: 3}, {Kind: "counts"}, {Kind: "fields"}, {Kind: "fieldtimes"},
+		{Kind: "keyrange", A: "0", B: "a"}, {Kind: "krv", A: "1", B: "150", Show: 1}, {Kind: "krv", A: "2", B: "40", Enc: 2},
+		{Kind: "query", Query: `{"a":1}`, Fm: []string{"a", "b"}}, {Kind: "query", Query: `{"zz":"exists/0"}`, OnlyID: true},
+		{Kind: "headkey", ID: id0}, {Kind: "key", ID: id0, Show: 3}, {Kind: "keyvalues", Keys: append([]uint64{999}, ids...), Enc: 2},
+		{Kind: "meta", Meta: 1}, {Kind: "headmeta", Meta: 0},
+	}
+	var out []RefRead
+	for _, ref := range refs {
+		for _, rd := range reads {
+			out = append(out, RefRead{Ref: ref, Read: rd})
+		}
+	}
+	return out
+}
+
+// phase 0: the branch head and committed versions configured "inmemory", restart; phase 1: no
+// configuration, restart: every version must answer alike in both
+func cfgPhases(ids []uint64, withBranch bool, static []VRef) []PhaseSpec {
+	rr := refReads(ids, withBranch)
+	return []PhaseSpec{
+		{Ops: []OpSpec{{Kind: "config", CfgBranch: withBranch, CfgStatic: static}, {Kind: "reload"}}, Reads: rr},
+		{Ops: []OpSpec{{Kind: "config"}, {Kind: "reload"}}, Reads: rr},
+	}
+}
+
+func onB(op OpSpec) OpSpec { op.Branch = true; return op }
+
 func post(id uint64, body string) OpSpec { return OpSpec{Kind: "post", Key: id, Body: body} }
 func del(id uint64) OpSpec              { return OpSpec{Kind: "delete", Key: id} }
 
@@ -160,6 +198,27 @@ func corpus() []CaseSpec {
 		post(15, `{"bodyid":15,"a":1,"a_time":5}`), post(15, `{"bodyid":15,"a":1,"a_user":[1]}`),
 		{Kind: "metadelete", Meta: 0}, post(16, `{"bodyid":16,"n":7}`)},
 		Reads: stdReads([]uint64{10, 11, 12, 13}, 17)})
+	// a second branch, its HEAD db and read-only UUID dbs
+	cs = append(cs, CaseSpec{Name: "corpus-branch", Ops: []OpSpec{
+		post(10, `{"bodyid":10,"a":1}`), post(20, `{"bodyid":20,"a":2,"s":"x"}`), {Kind: "commit"}, {Kind: "newversion"},
+		post(30, `{"bodyid":30,"a":1}`), {Kind: "branch", From: 0}, {Kind: "branch", From: 0},
+		onB(post(40, `{"bodyid":40,"b":1}`)), onB(del(10)), onB(OpSpec{Kind: "metapost", Meta: 1, Val: `{"on":"b"}`}),
+		{Kind: "config", CfgBranch: true, CfgStatic: []VRef{{N: 0}}}, {Kind: "reload"},
+		onB(post(20, `{"bodyid":20,"a":null,"c":[1,2]}`)), onB(OpSpec{Kind: "commit"}), onB(post(41, `{"bodyid":41}`)),
+		onB(OpSpec{Kind: "newversion"}), onB(post(50, `{"bodyid":50,"b":3,"b_time":"2021-01-01T00:00:00Z"}`)), onB(del(40)),
+		post(31, `{"bodyid":31,"a":7}`), del(10)},
+		Reads: stdReads([]uint64{10, 20, 30}, 15), Phases: cfgPhases([]uint64{10, 20, 40, 50}, true, []VRef{{N: 0}, {B: true, N: 0}})})
+	// (m) the configuration names the branch before it exists
+	cs = append(cs, CaseSpec{Name: "corpus-config-before-branch", Ops: []OpSpec{
+		post(10, `{"bodyid":10,"a":1}`), {Kind: "commit"}, {Kind: "config", CfgBranch: true}, {Kind: "reload"},
+		{Kind: "newversion"}, {Kind: "branch", From: 0}, onB(post(30, `{"bodyid":30,"b":1}`))},
+		Reads: stdReads([]uint64{10}, 15),
+		Phases: []PhaseSpec{{Reads: refReads([]uint64{10, 30}, true)}, {Ops: []OpSpec{{Kind: "config"}, {Kind: "reload"}}, Reads: refReads([]uint64{10, 30}, true)}}})
+	// (n) the configuration names a version that is still open
+	cs = append(cs, CaseSpec{Name: "corpus-config-open-version", Ops: []OpSpec{
+		post(10, `{"bodyid":10,"a":1}`), {Kind: "config", CfgStatic: []VRef{{N: 0}}}, {Kind: "reload"},
+		post(20, `{"bodyid":20,"a":1}`), del(10), {Kind: "commit"}, {Kind: "newversion"}},
+		Reads: stdReads([]uint64{10, 20}, 15), Phases: cfgPhases([]uint64{10, 20}, false, nil)})
 	// field merge rules
 	cs = append(cs, CaseSpec{Name: "corpus-stamps", Ops: []OpSpec{
 		post(7, `{"bodyid":7,"a":1,"s":"x","b":[1,2],"a_time":"2020-01-01T00:00:00Z"}`),
@@ -265,6 +324,69 @@ func genCase(r *lib.Rand, name string, thorough bool) CaseSpec {
 		}
 	}
 	_ = locked
+	// half of the histories get a second branch: created from the root once it is committed, then
+	// requests on its head interleaved with those on master
+	var phases []PhaseSpec
+	if r.Chance(0.5) {
+		var out []OpSpec
+		mlocked, mlen, haveB, bLocked, bLen := false, 0, false, false, 0
+		for _, op := range ops {
+			out = append(out, op)
+			switch op.Kind {
+			case "commit":
+				mlocked = true
+			case "newversion":
+				if mlocked {
+					mlocked, mlen = false, mlen+1
+				}
+			}
+			committedRoot := mlen > 0 || mlocked
+			if !haveB && committedRoot && r.Chance(0.5) {
+				out = append(out, OpSpec{Kind: "branch", From: 0})
+				haveB = true
+			}
+			if haveB && r.Chance(0.35) {
+				id := pick()
+				switch x := r.Intn(10); {
+				case x < 5:
+					out = append(out, onB(post(id, genBody(r, id, false))))
+				case x < 7:
+					out = append(out, onB(del(id)))
+				case x < 8:
+					out = append(out, onB(OpSpec{Kind: "metapost", Meta: r.Intn(3), Val: pickS(r, []string{theSchema, schema2, `{"b":1}`})}))
+				case x < 9:
+					out = append(out, onB(OpSpec{Kind: "commit"}))
+					if !bLocked {
+						bLocked = true
+					}
+					if r.Chance(0.8) {
+						out = append(out, onB(OpSpec{Kind: "newversion"}))
+						bLocked, bLen = false, bLen+1
+					}
+				default:
+					// the branch head in memory from here on
+					st := []VRef{}
+					if committedRoot {
+						st = append(st, VRef{N: 0})
+					}
+					if bLen > 0 {
+						st = append(st, VRef{B: true, N: 0})
+					}
+					out = append(out, OpSpec{Kind: "config", CfgBranch: true, CfgStatic: st}, OpSpec{Kind: "reload"})
+				}
+			}
+		}
+		ops = out
+		if haveB {
+			st := []VRef{{N: 0}}
+			if bLen > 0 {
+				st = append(st, VRef{B: true, N: 0})
+			}
+			phases = cfgPhases(ids, true, st)
+		}
+	} else if r.Chance(0.3) {
+		phases = cfgPhases(ids, false, []VRef{{N: 0}, {N: -2}})
+	}
 	absent := uint64(151 + r.Intn(9))
 	reads := stdReads(ids, absent)
 	// a few random reads
@@ -283,5 +405,5 @@ func genCase(r *lib.Rand, name string, thorough bool) CaseSpec {
 			reads = append(reads, ReadSpec{Kind: "all", Fm: []string{pickS(r, fieldPool), pickS(r, fieldPool) + "_user"}, Show: r.Intn(4)})
 		}
 	}
-	return CaseSpec{Name: name, Ops: ops, Reads: reads}
+	return CaseSpec{Name: name, Ops: ops, Reads: reads, Phases: phases}
 }
